@@ -5,6 +5,7 @@ package check
 
 import (
 	"fmt"
+	"os"
 	"sort"
 	"sync"
 	"time"
@@ -62,6 +63,10 @@ func (r *Runner) solveAll(obs []*govc.Oblig) []*OblResult {
 				out[i] = &OblResult{O: o, R: r.Solver.CheckQuick(q, 2*time.Second), Query: q}
 				return
 			}
+			if o.Cand >= 0 {
+				out[i] = &OblResult{O: o, R: r.Solver.CheckBudget(q, 2*time.Second), Query: q}
+				return
+			}
 			out[i] = &OblResult{O: o, R: r.Solver.Check(q), Query: q}
 		}()
 	}
@@ -72,7 +77,7 @@ func (r *Runner) solveAll(obs []*govc.Oblig) []*OblResult {
 // VerifyFunction runs Houdini over the auto-candidates, then solves the rest.
 func (r *Runner) VerifyFunction(p *govc.Program, fi *govc.FuncInfo, opt govc.Options) *FuncOutcome {
 	out := &FuncOutcome{Key: fi.Key}
-	opt.Candidates = map[string][]bool{}
+	opt.Disabled = map[string]map[string]bool{}
 	var res *govc.FuncResult
 	for iter := 0; iter < 60; iter++ {
 		out.Iter = iter + 1
@@ -80,6 +85,15 @@ func (r *Runner) VerifyFunction(p *govc.Program, fi *govc.FuncInfo, opt govc.Opt
 		if res.Reject != "" {
 			out.Reject = res.Reject
 			return out
+		}
+		if iter == 0 && (opt.Sweep || opt.AutoInv) && len(res.HeapKeys) > 0 && opt.HeapKeys == nil {
+			// second pass with all heap keys known up front (loop frame candidates)
+			opt.HeapKeys = res.HeapKeys
+			res = p.VerifyFunc(fi, opt)
+			if res.Reject != "" {
+				out.Reject = res.Reject
+				return out
+			}
 		}
 		var cands []*govc.Oblig
 		for _, o := range res.Obligs {
@@ -94,18 +108,19 @@ func (r *Runner) VerifyFunction(p *govc.Program, fi *govc.FuncInfo, opt govc.Opt
 		changed := false
 		for _, cr := range rs {
 			if cr.R.Status != "unsat" {
-				key := cr.O.CandLoop
-				en := opt.Candidates[key]
-				if en == nil {
-					n := len(res.Candidates[key])
-					en = make([]bool, n)
-					for i := range en {
-						en[i] = true
+				if os.Getenv("BNGVC_DEBUG_CAND") != "" {
+					fmt.Printf("    cand-fail iter %d %s %s: %s %v\n", iter, cr.O.Kind, cr.O.CandDesc, cr.R.Status, cr.R.Outputs)
+					if d := os.Getenv("BNGVC_DEBUG_CAND"); d != "1" {
+						os.MkdirAll(d, 0o755)
+						os.WriteFile(d+"/"+smt.Sanitize(fmt.Sprintf("%d_%s_%s", iter, cr.O.Kind, cr.O.CandDesc))+".smt2", []byte(cr.Query), 0o644)
 					}
-					opt.Candidates[key] = en
 				}
-				if cr.O.Cand < len(en) && en[cr.O.Cand] {
-					en[cr.O.Cand] = false
+				key := cr.O.CandLoop
+				if opt.Disabled[key] == nil {
+					opt.Disabled[key] = map[string]bool{}
+				}
+				if !opt.Disabled[key][cr.O.CandDesc] {
+					opt.Disabled[key][cr.O.CandDesc] = true
 					changed = true
 				}
 			}
@@ -115,9 +130,8 @@ func (r *Runner) VerifyFunction(p *govc.Program, fi *govc.FuncInfo, opt govc.Opt
 		}
 	}
 	for key, descs := range res.Candidates {
-		en := opt.Candidates[key]
-		for i, d := range descs {
-			if en != nil && i < len(en) && !en[i] {
+		for _, d := range descs {
+			if opt.Disabled[key][d] {
 				out.Dropped = append(out.Dropped, key+": "+d)
 			} else {
 				out.Kept = append(out.Kept, key+": "+d)
